@@ -2,6 +2,7 @@ package main
 
 import (
 	"fmt"
+	"sort"
 	"strings"
 
 	"github.com/gobuffalo/plush/v5"
@@ -127,9 +128,9 @@ func init() {
 					plush.CacheEnabled = cache
 					for r := 0; r < 2*reps; r++ {
 						for label, f := range map[string]func() error{
-							"Render": func() error { _, err := plush.Render(src, plush.NewContext()); return err },
-							"NewTemplate": func() error { _, err := plush.NewTemplate(src); return err },
-							"Parse": func() error { _, err := plush.Parse(src); return err },
+							"Render":       func() error { _, err := plush.Render(src, plush.NewContext()); return err },
+							"NewTemplate":  func() error { _, err := plush.NewTemplate(src); return err },
+							"Parse":        func() error { _, err := plush.Parse(src); return err },
 							"literal-Exec": func() error { _, err := (&plush.Template{Input: src}).Exec(plush.NewContext()); return err },
 						} {
 							err := f()
@@ -317,6 +318,24 @@ func init() {
 			plush.CacheEnabled = false
 			plush.VerifCacheReset()
 		}
+		// values allocated by the execution itself and printed by address (a pointer nested in a slice handed to
+		// inspect, or quoted in an error text): two executions of one template with equal data differ
+		// (known finding c13-address-in-output)
+		for _, tm := range []string{"<%= inspect([range(1, 3)]) %>", "<%= truncate([range(1, 3)]) %>", "<%= inspect([until(2), between(1, 4)]) %>", "<%= debug([groupBy(1, [1])]) %>"} {
+			res := map[string]bool{}
+			for r := 0; r < 4; r++ {
+				out, err := plush.Render(tm, plush.NewContext())
+				if err != nil {
+					out = "ERR:" + err.Error()
+				}
+				res[out] = true
+				e.rep.Evaluations++
+			}
+			e.Count("address-in-output")
+			if len(res) > 1 {
+				e.Violate("c13-address-in-output", fmt.Sprintf("%s rendered %d different results in 4 executions with equal (empty) data, e.g. %q", tm, len(res), firstKey(res)), map[string]interface{}{"tmpl": tm})
+			}
+		}
 	})
 }
 
@@ -335,4 +354,16 @@ func maskPtrs(s string) string {
 		b.WriteByte(s[i])
 	}
 	return b.String()
+}
+
+func firstKey(m map[string]bool) string {
+	ks := []string{}
+	for k := range m {
+		ks = append(ks, k)
+	}
+	sort.Strings(ks)
+	if len(ks) == 0 {
+		return ""
+	}
+	return ks[0]
 }
